@@ -256,7 +256,8 @@ class CentrallyBin(Factory, Container):
                 raise RuntimeError(f"low {low} greater than high {high}")
         # entries at request list of x-values
         elif len(xvalues) > 0:
-            return np.array([(self.bins[self.index(x)])[1].entries for x in xvalues])
+            # a NaN is filled into the nanflow, which is not one of the bins: nothing to report for it
+            return np.array([0.0 if math.isnan(x) else (self.bins[self.index(x)])[1].entries for x in xvalues])
         # lowest, highest edge reset
         if low is None:
             low = float("-inf")
